@@ -87,11 +87,11 @@ def _run(ctx, tmp):
     idx = 0
     for n in (1, 2, 3, 50):
         for dt in DTS:
-            for rep in range(1 if quick else 4):
+            for rep in range(2 if quick else 6):
                 kind = ['mixed', 'gauss', 'tie', 'tiny', 'big', 'dyadic', 'zero'][idx % 7]
                 cases.append((kind, gen_values(rng, n, kind), dt, LABELS[idx % len(LABELS)]))
                 idx += 1
-    for i in range(120 if quick else 2500):
+    for i in range(600 if quick else 8000):
         n = rng.choice([1, 1, 2, 3, 50]) if rng.random() < 0.6 else gen.log_int(rng, 1, 120)
         c = rng.random()
         if c < 0.35:
